@@ -19,7 +19,17 @@ Inductive ckind := CNetmap | CNeoFS.
     two's complement; true = 01, false = 00) and Null makes [storage.Put]
     fault.  A byte string is stored as it is, whatever its content (it may
     look like a non-minimal integer). *)
-Inductive cop := CSet (alpha : bool) (id key : bytes) (v : val).
+Inductive cop :=
+| CSet (alpha : bool) (id key : bytes) (v : val)
+(** NeoFS deployed with notaryDisabled: [SetConfig] is one VOTE of the invoking
+    Alphabet key for the decision [id].  The vote mechanics (ballots, their
+    expiry, the 2n/3+1 threshold) are C17's; here only: [member] = the
+    transaction is witnessed by a key of the Alphabet list, [applied] = this
+    vote completes the tally of [id] (then the ballot is closed) — both read
+    off the chain history by the harness's tally.  The setConfig of the
+    completing invocation takes effect, with ITS arguments; any other vote of a
+    member halts without touching the configuration. *)
+| CVote (member applied : bool) (id key : bytes) (v : val).
 
 Definition val_bytes (v : val) : option bytes :=
   match v with
@@ -33,16 +43,20 @@ Definition is_bytes (v : val) : bool := match v with VBytes _ => true | _ => fal
 (** NeoFS emits SetConfig(id, key, val) — [runtime.Notify] checks the value
     against the manifest type ByteArray and faults on an Integer or Boolean;
     Netmap emits nothing. *)
+Definition cset (kd : ckind) (s : store) (id key : bytes) (v : val) : outcome (store * list val) :=
+  b <-! (match val_bytes v with Some b => Halt b | None => Fault end);
+  s' <-! sput (config_pfx ++ key) b s;
+  match kd with
+  | CNetmap => Halt (s', [])
+  | CNeoFS => _ <-! oassert (is_bytes v); Halt (s', [VList [VBytes id; VBytes key; VBytes b]])
+  end.
+
 Definition cexec (kd : ckind) (s : store) (o : cop) : outcome (store * list val) :=
   match o with
-  | CSet alpha id key v =>
-      _ <-! oassert alpha;
-      b <-! (match val_bytes v with Some b => Halt b | None => Fault end);
-      s' <-! sput (config_pfx ++ key) b s;
-      match kd with
-      | CNetmap => Halt (s', [])
-      | CNeoFS => _ <-! oassert (is_bytes v); Halt (s', [VList [VBytes id; VBytes key; VBytes b]])
-      end
+  | CSet alpha id key v => _ <-! oassert alpha; cset kd s id key v
+  | CVote member applied id key v =>
+      _ <-! oassert member;
+      if applied then cset kd s id key v else Halt (s, [])
   end.
 
 (** [Config]: Null when absent. *)
